@@ -56,6 +56,7 @@ func main() {
 	tags := flag.String("tags", "verif", "build tags")
 	porcupine := flag.String("porcupine", "", "directory of porcupine v1.3.0 sources (module cache)")
 	noRewrite := flag.Bool("norewrite", false, "only produce the overlay (no source rewriting)")
+	noSelect := flag.Bool("noselect", false, "do not patch the runtime's select poll order")
 	flag.Parse()
 	if *out == "" {
 		fatal("need -out")
@@ -275,6 +276,50 @@ func main() {
 		overlay[filepath.Join(*repo, "internal", "porcupine", "stub.go")] = stub
 	}
 
+	// Go runtime: the poll order of select statements executed inside a synctest bubble is derived
+	// from a seed the harness sets (runtime.verifSelectSeed) and the select's call site instead of
+	// the runtime's unseedable per-M random numbers. One source line of runtime/select.go changes.
+	if !*noSelect {
+		goroot := strings.TrimSpace(runOut(*gobin, "env", "GOROOT"))
+		src := filepath.Join(goroot, "src", "runtime", "select.go")
+		b, err := os.ReadFile(src)
+		if err != nil {
+			fatal("runtime/select.go: %v", err)
+		}
+		const oldLine = "\t\tj := cheaprandn(uint32(norder + 1))\n"
+		if strings.Count(string(b), oldLine) != 1 {
+			fatal("runtime/select.go: the poll-order line was not found exactly once (Go version changed?)")
+		}
+		patched := strings.Replace(string(b), oldLine, "\t\tj := verifSelectIndex(gp, uint32(norder+1), sys.GetCallerPC())\n", 1)
+		if !strings.Contains(patched, "\"internal/runtime/sys\"") {
+			fatal("runtime/select.go does not import internal/runtime/sys")
+		}
+		patched += `
+// verifSelectSeed is set by the deterministic-simulation harness (push linkname).
+//
+//go:linkname verifSelectSeed
+var verifSelectSeed uint32
+
+func verifSelectIndex(gp *g, n uint32, pc uintptr) uint32 {
+	seed := verifSelectSeed
+	if seed == 0 || gp.bubble == nil {
+		return cheaprandn(n)
+	}
+	x := uint64(seed)*0x9e3779b97f4a7c15 ^ uint64(pc)*0xbf58476d1ce4e5b9 ^ uint64(n)*0x94d049bb133111eb
+	x ^= x >> 31
+	x *= 0xd6e8feb86659fd93
+	x ^= x >> 32
+	return uint32(x % uint64(n))
+}
+`
+		dst := filepath.Join(*out, "runtime_select.go")
+		if err := os.WriteFile(dst, []byte(patched), 0o644); err != nil {
+			fatal("%v", err)
+		}
+		overlay[src] = dst
+		stats["runtime_select_patched"] = 1
+	}
+
 	ob, _ := json.MarshalIndent(map[string]any{"Replace": overlay}, "", " ")
 	if err := os.WriteFile(filepath.Join(*out, "overlay.json"), ob, 0o644); err != nil {
 		fatal("%v", err)
@@ -302,4 +347,12 @@ func hasParams(fd *ast.FuncDecl, names ...string) bool {
 func fatal(f string, a ...any) {
 	fmt.Fprintf(os.Stderr, "vrewrite: "+f+"\n", a...)
 	os.Exit(2)
+}
+
+func runOut(name string, args ...string) string {
+	out, err := exec.Command(name, args...).Output()
+	if err != nil {
+		fatal("%s %v: %v", name, args, err)
+	}
+	return string(out)
 }
